@@ -731,6 +731,15 @@ func main() {
 	writeIfChanged(filepath.Join(*out, "Guards.lean"), g.Bytes())
 	facts["t2_translated"] = t2ok
 
+	// ---- T4 lock-sets
+	{
+		rows, txt := lockgen()
+		writeIfChanged(filepath.Join(*out, "Locks.lean"), lockLean(rows))
+		_ = os.MkdirAll(filepath.Dir(*skelOut), 0o755)
+		_ = os.WriteFile(filepath.Join(filepath.Dir(*skelOut), "locks.txt"), []byte(txt), 0o644)
+		facts["t4_rows"] = len(rows)
+	}
+
 	// ---- T3 skeletons
 	var s bytes.Buffer
 	s.WriteString("/-\n  REGENERATED by /verif/go/cmd/extract (translator T3 `skelgen`): FNV-1a/64 fingerprints of the normalised\n  bodies of the functions the hand-written models were derived from. Readable texts: /verif/gen/skeletons.\n-/\nnamespace Gen.Skeletons\n\n")
